@@ -12,10 +12,14 @@ RunsOf(world, skip, limit, ff, sh, bl) ==
     <<Run(0, 1, 0, 0 - 1, 0, 0, 1, FALSE, FALSE, 1, TRUE)>>
     \o FlattenSeq([r \in 1..world |-> [v \in 1..3 |-> Run(r - 1, world, skip, limit, ff, Variants[v][1], Variants[v][2], sh, FALSE, bl, FALSE)]])
 Lens == {<<5>>, <<2, 4>>, <<0, 3, 2>>}
+\* seed = -1: the loader is built without a seed (only without shuffling, which demands one): still one fixed stream
 Cases == {[lens |-> l, strategy |-> s, seed |-> 11, epoch |-> e, pipeline |-> p,
            runs |-> RunsOf(w, sk, lim, ff, sh, bl)] :
              l \in Lens, s \in {"sequential", "interleaved", "weighted"}, e \in {0, 1}, p \in Pipelines,
              w \in 1..3, sk \in 0..MaxSkip, lim \in {0 - 1, 4}, ff \in {0, 1, 3}, sh \in BOOLEAN, bl \in {2}}
+         \cup {[lens |-> l, strategy |-> s, seed |-> 0 - 1, epoch |-> 0, pipeline |-> "none",
+           runs |-> RunsOf(w, 0, 0 - 1, ff, FALSE, 2)] :
+             l \in Lens, s \in {"sequential", "interleaved", "weighted"}, w \in 1..2, ff \in {0, 3}}
 VARIABLE x
 Init == x = 0 /\ ndJsonSerialize(IOEnv.OUT, SetToSeq({c \in Cases : c.strategy # "weighted" \/ \A k \in 1..Len(c.lens) : c.lens[k] > 0}))
 Next == UNCHANGED x
